@@ -487,7 +487,8 @@ def _sos_eos_tables(ctx, rel) -> bool:
                     for eos in (None, 1):
                         sv, evl = (sos if sos is not None else 40), (eos if eos is not None else 41)
                         toks = [sv if x == S else (evl if x == E else x) for x in shape]
-                        h = arr([[t_, 2, 4] for t_ in toks], 3) if two_d else arr(toks)
+                        # (2-D: the segment boundaries are frame numbers - here they coincide with the sos / eos ids 3 and 1, which must not matter)
+                        h = arr([[t_, 3, 1] for t_ in toks], 3) if two_d else arr(toks)
                         saved = []
 
                         def leaf(x, env):
